@@ -226,7 +226,7 @@ pub fn run(r: &mut Runner) -> &'static str {
     r.rule = "inputs: truncated v2 headers - every valid control-byte pair x every declared length x a set of bytes-present counts (all of 0..15, and 16+{0,1,2,L/2,L-2,L-1}), \
               invalid control pairs with 12-15 bytes, random truncations of random headers and mutants; oracle: R-V2's exact counts for every incomplete result the parser reports, \
               then the completion relation (append exactly the missing bytes -> success of 16+L bytes; append fewer -> updated counts). non-trivial = cases on which the parser \
-              reported an incomplete result; distinct by SipHash of the input (enumeration stage: distinct by construction)"
+              reported an incomplete result; distinct by SipHash of the input (enumeration stage: distinct by construction) Added later: completion bytes in content classes and as runs of well-formed TLVs at the address/TLV boundary, truncated valid headers must draw counts at all, counts through the auto-detecting entry point."
         .into();
     r.assumptions.push("C17 is conditional on the parser reporting an incomplete result; whether it must do so is C05/C02".into());
 
